@@ -155,13 +155,16 @@ DecRaw(b, p, n) == IF Have(b, p, n) THEN Good(Slice(b, p, n), p + n) ELSE Bad
 \* decode n variable-length elements by halving: the same result as DecElems, recursion depth log n
 \* (DecElems is linear in depth, which TLC pays more than quadratically: text arrays of 32767 elements)
 RECURSIVE DecElemsDC(_, _, _, _)
-DecElemsDC(eop, b, p, n) ==
-  IF n = 0 THEN Good(<<>>, p)
-  ELSE IF n = 1 THEN Bind(DecScalar(eop, b, p), LAMBDA d : IF d.ok THEN Good(<<d.v>>, d.next) ELSE Bad)
-  ELSE Bind(DecElemsDC(eop, b, p, n \div 2),
-            LAMBDA x : IF ~x.ok THEN Bad
-                       ELSE Bind(DecElemsDC(eop, b, x.next, n - (n \div 2)),
-                                 LAMBDA y : IF y.ok THEN Good(x.v \o y.v, y.next) ELSE Bad))
+DecElemsDC(eop, b, p0, n0) ==
+  Bind(<<p0, n0>>, LAMBDA a :      \* position and count bound by VALUE (as lazy arguments they are re-evaluated
+    LET p == a[1]                  \* through the whole chain of callers at every use: exponential in the depth)
+        n == a[2] IN
+    IF n = 0 THEN Good(<<>>, p)
+    ELSE IF n = 1 THEN Bind(DecScalar(eop, b, p), LAMBDA d : IF d.ok THEN Good(<<d.v>>, d.next) ELSE Bad)
+    ELSE Bind(DecElemsDC(eop, b, p, n \div 2),
+              LAMBDA x : IF ~x.ok THEN Bad
+                         ELSE Bind(DecElemsDC(eop, b, x.next, n - (n \div 2)),
+                                   LAMBDA y : IF y.ok THEN Good(x.v \o y.v, y.next) ELSE Bad)))
 
 \* the matching read of the program element <<op, v>> at position p of b: Dec for every kind that is
 \* self-describing, ReadBytes(Len(v)) for raw bytes.  (Variable-length arrays go through the halving decoder.)
@@ -175,9 +178,13 @@ DecFor(op, v, b, p) ==
 
 \* flatten by halving (Concat of Bytes.tla is linear in depth)
 RECURSIVE ConcatDC(_, _, _)
-ConcatDC(ss, lo, hi) == IF lo > hi THEN <<>>
-                        ELSE IF lo = hi THEN ss[lo]
-                        ELSE LET mid == (lo + hi) \div 2 IN ConcatDC(ss, lo, mid) \o ConcatDC(ss, mid + 1, hi)
+ConcatDC(ss, lo0, hi0) ==
+  Bind(<<lo0, hi0>>, LAMBDA a :    \* bounds bound by value (see DecElemsDC)
+    LET lo == a[1]
+        hi == a[2] IN
+    IF lo > hi THEN <<>>
+    ELSE IF lo = hi THEN ss[lo]
+    ELSE ConcatDC(ss, lo, (lo + hi) \div 2) \o ConcatDC(ss, ((lo + hi) \div 2) + 1, hi))
 
 \* Enc as the stream appends it: the same bytes as Enc, variable-length arrays flattened by halving
 EncFor(op, v) ==
